@@ -443,7 +443,7 @@ class NativeCase(Case):
             o['backends']['native-oracle'] = o['backends'].get('native-oracle', 0) + 1
             if o['sample'] is None and inputs is not None:
                 o['sample'] = repr(inputs)[:600]
-        elif len(o['refuted']) < 5:
+        elif len(o['refuted']) < 40:
             o['refuted'].append(dict(inputs=inputs, info=info, confirmed=True, path=[], notes=[],
                                      replay=dict(failed=[name], checked=[name], assume_failed=False, error=None)))
         else:
